@@ -34,6 +34,8 @@ pub enum Op {
     EnvWait(usize),
     /// explicit harness point
     Custom(String),
+    /// acquisition of scheduled lock `id` (see `sync`), exclusive or shared; enabled while it would not block
+    Lock(usize, bool),
 }
 
 impl Op {
@@ -103,6 +105,9 @@ pub struct St {
     pub last_run: Option<usize>,
     /// virtual clock in ms (advanced by accept timeouts)
     pub clock_ms: u64,
+    /// scheduled locks: id -> (readers, writer held)
+    pub locks: HashMap<usize, (usize, bool)>,
+    next_lock: usize,
 }
 
 pub struct Inner {
@@ -177,6 +182,8 @@ impl Sched {
                 trace: vec![],
                 last_run: None,
                 clock_ms: 0,
+                locks: HashMap::new(),
+                next_lock: 0,
             }),
             cv: Condvar::new(),
             gen: NEXT_GEN.fetch_add(1, std::sync::atomic::Ordering::SeqCst),
@@ -759,6 +766,10 @@ fn core_enabled(st: &St, tid: usize, op: &Op, world: &dyn World) -> bool {
             st.threads.iter().any(|t| t.os == Some(*os) && t.exited) || (!st.threads.iter().any(|t| t.os == Some(*os)) && !st.threads.iter().any(|t| t.os.is_none() && !t.exited))
         }
         Op::Probe(P::ClientWantLock) | Op::Custom(_) => world.thread_enabled(st, tid, op),
+        Op::Lock(id, write) => {
+            let (readers, writer) = st.locks.get(id).copied().unwrap_or((0, false));
+            !writer && (!*write || readers == 0)
+        }
         Op::Probe(_) => true,
     }
 }
@@ -778,6 +789,14 @@ fn core_on_grant(st: &mut St, tid: usize, op: &Op) {
         Op::Probe(P::WorkerBusyDec) => st.threads[tid].holding = None,
         Op::EnvWait(k) => {
             st.signals.remove(k);
+        }
+        Op::Lock(id, write) => {
+            let e = st.locks.entry(*id).or_insert((0, false));
+            if *write {
+                e.1 = true;
+            } else {
+                e.0 += 1;
+            }
         }
         _ => {}
     }
@@ -1031,4 +1050,260 @@ pub fn explore(build: &dyn Fn(&Sched) -> Scenario, cfg: &ExploreCfg, on_exec: &m
         }
     }
     Ok(stats)
+}
+
+// ------------------------------------------------------------------ scheduled locks
+
+thread_local! {
+    static UNSCHEDULED: std::cell::Cell<bool> = const { std::cell::Cell::new(false) };
+}
+
+/// Run `f` on the calling thread without scheduling points (set-up on the controller thread).
+pub fn unscheduled<R>(f: impl FnOnce() -> R) -> R {
+    let old = UNSCHEDULED.with(|c| c.replace(true));
+    let r = f();
+    UNSCHEDULED.with(|c| c.set(old));
+    r
+}
+
+/// Drop-in `RwLock` / `Mutex` for code under test whose `std::sync` imports are redirected here (the loom
+/// convention): every acquisition is a scheduling point that is enabled only while it would not block, so the
+/// explorer sees every order in which threads can enter the critical sections. Releases are not scheduling
+/// points (the state between a release and the thread's next visible operation is not observable to others
+/// as long as shared data is only touched under these locks). Without an installed scheduler, and on threads
+/// marked `unscheduled`, they are plain std locks.
+pub mod sync {
+    use super::*;
+    use std::sync::{LockResult, PoisonError, TryLockError, TryLockResult};
+
+    struct Tag {
+        /// (scheduler generation, lock id within that scheduler)
+        id: std::sync::Mutex<(u64, usize)>,
+    }
+
+    impl Tag {
+        const fn new() -> Tag {
+            Tag { id: std::sync::Mutex::new((0, 0)) }
+        }
+        /// the scheduler that controls the calling thread, and this lock's id in it
+        fn sched(&self) -> Option<(Sched, usize)> {
+            if UNSCHEDULED.with(|c| c.get()) {
+                return None;
+            }
+            let s = current()?;
+            let mut st = s.lock();
+            if st.free_run {
+                return None;
+            }
+            let mut t = self.id.lock().unwrap_or_else(|e| e.into_inner());
+            if t.0 != s.0.gen {
+                *t = (s.0.gen, st.next_lock);
+                st.next_lock += 1;
+            }
+            let id = t.1;
+            drop(t);
+            drop(st);
+            Some((s, id))
+        }
+        fn acquire(&self, write: bool) -> Option<(Sched, usize)> {
+            let (s, id) = self.sched()?;
+            s.yield_op(Op::Lock(id, write));
+            Some((s, id))
+        }
+        /// non-blocking attempt: a scheduling point that is always enabled; Some(held) when scheduled
+        fn try_acquire(&self, write: bool) -> Option<((Sched, usize), bool)> {
+            let (s, id) = self.sched()?;
+            s.yield_op(Op::Custom(format!("try-lock {} {}", id, if write { "w" } else { "r" })));
+            let mut st = s.lock();
+            if st.free_run {
+                return None;
+            }
+            let e = st.locks.entry(id).or_insert((0, false));
+            let free = !e.1 && (!write || e.0 == 0);
+            if free {
+                if write {
+                    e.1 = true;
+                } else {
+                    e.0 += 1;
+                }
+            }
+            drop(st);
+            Some(((s, id), free))
+        }
+    }
+
+    struct Release {
+        held: Option<(Sched, usize)>,
+        write: bool,
+    }
+
+    impl Drop for Release {
+        fn drop(&mut self) {
+            if let Some((s, id)) = self.held.take() {
+                let mut st = s.lock();
+                if let Some(e) = st.locks.get_mut(&id) {
+                    if self.write {
+                        e.1 = false;
+                    } else {
+                        e.0 = e.0.saturating_sub(1);
+                    }
+                }
+            }
+        }
+    }
+
+    fn map<G, W>(r: LockResult<G>, wrap: impl FnOnce(G) -> W) -> LockResult<W> {
+        match r {
+            Ok(g) => Ok(wrap(g)),
+            Err(p) => Err(PoisonError::new(wrap(p.into_inner()))),
+        }
+    }
+
+    fn map_try<G, W>(r: TryLockResult<G>, wrap: impl FnOnce(G) -> W) -> TryLockResult<W> {
+        match r {
+            Ok(g) => Ok(wrap(g)),
+            Err(TryLockError::Poisoned(p)) => Err(TryLockError::Poisoned(PoisonError::new(wrap(p.into_inner())))),
+            Err(TryLockError::WouldBlock) => Err(TryLockError::WouldBlock),
+        }
+    }
+
+    pub struct RwLock<T: ?Sized> {
+        tag: Tag,
+        inner: std::sync::RwLock<T>,
+    }
+
+    // field order: the std guard is released before the scheduler's book-keeping is updated
+    pub struct RwLockReadGuard<'a, T: ?Sized> {
+        g: std::sync::RwLockReadGuard<'a, T>,
+        _r: Release,
+    }
+    pub struct RwLockWriteGuard<'a, T: ?Sized> {
+        g: std::sync::RwLockWriteGuard<'a, T>,
+        _r: Release,
+    }
+
+    impl<T> RwLock<T> {
+        pub const fn new(t: T) -> RwLock<T> {
+            RwLock { tag: Tag::new(), inner: std::sync::RwLock::new(t) }
+        }
+        pub fn into_inner(self) -> LockResult<T> {
+            self.inner.into_inner()
+        }
+    }
+
+    impl<T: ?Sized> RwLock<T> {
+        pub fn read(&self) -> LockResult<RwLockReadGuard<'_, T>> {
+            let held = self.tag.acquire(false);
+            map(self.inner.read(), |g| RwLockReadGuard { g, _r: Release { held, write: false } })
+        }
+        pub fn write(&self) -> LockResult<RwLockWriteGuard<'_, T>> {
+            let held = self.tag.acquire(true);
+            map(self.inner.write(), |g| RwLockWriteGuard { g, _r: Release { held, write: true } })
+        }
+        pub fn try_read(&self) -> TryLockResult<RwLockReadGuard<'_, T>> {
+            match self.tag.try_acquire(false) {
+                Some((_, false)) => Err(TryLockError::WouldBlock),
+                Some((h, true)) => map_try(self.inner.try_read(), |g| RwLockReadGuard { g, _r: Release { held: Some(h), write: false } }),
+                None => map_try(self.inner.try_read(), |g| RwLockReadGuard { g, _r: Release { held: None, write: false } }),
+            }
+        }
+        pub fn try_write(&self) -> TryLockResult<RwLockWriteGuard<'_, T>> {
+            match self.tag.try_acquire(true) {
+                Some((_, false)) => Err(TryLockError::WouldBlock),
+                Some((h, true)) => map_try(self.inner.try_write(), |g| RwLockWriteGuard { g, _r: Release { held: Some(h), write: true } }),
+                None => map_try(self.inner.try_write(), |g| RwLockWriteGuard { g, _r: Release { held: None, write: true } }),
+            }
+        }
+        pub fn get_mut(&mut self) -> LockResult<&mut T> {
+            self.inner.get_mut()
+        }
+        pub fn is_poisoned(&self) -> bool {
+            self.inner.is_poisoned()
+        }
+    }
+
+    impl<T: Default> Default for RwLock<T> {
+        fn default() -> Self {
+            RwLock::new(T::default())
+        }
+    }
+    impl<T: ?Sized + std::fmt::Debug> std::fmt::Debug for RwLock<T> {
+        fn fmt(&self, f: &mut std::fmt::Formatter<'_>) -> std::fmt::Result {
+            self.inner.fmt(f)
+        }
+    }
+    impl<T: ?Sized> std::ops::Deref for RwLockReadGuard<'_, T> {
+        type Target = T;
+        fn deref(&self) -> &T {
+            &self.g
+        }
+    }
+    impl<T: ?Sized> std::ops::Deref for RwLockWriteGuard<'_, T> {
+        type Target = T;
+        fn deref(&self) -> &T {
+            &self.g
+        }
+    }
+    impl<T: ?Sized> std::ops::DerefMut for RwLockWriteGuard<'_, T> {
+        fn deref_mut(&mut self) -> &mut T {
+            &mut self.g
+        }
+    }
+
+    pub struct Mutex<T: ?Sized> {
+        tag: Tag,
+        inner: std::sync::Mutex<T>,
+    }
+    pub struct MutexGuard<'a, T: ?Sized> {
+        g: std::sync::MutexGuard<'a, T>,
+        _r: Release,
+    }
+    impl<T> Mutex<T> {
+        pub const fn new(t: T) -> Mutex<T> {
+            Mutex { tag: Tag::new(), inner: std::sync::Mutex::new(t) }
+        }
+        pub fn into_inner(self) -> LockResult<T> {
+            self.inner.into_inner()
+        }
+    }
+    impl<T: ?Sized> Mutex<T> {
+        pub fn lock(&self) -> LockResult<MutexGuard<'_, T>> {
+            let held = self.tag.acquire(true);
+            map(self.inner.lock(), |g| MutexGuard { g, _r: Release { held, write: true } })
+        }
+        pub fn try_lock(&self) -> TryLockResult<MutexGuard<'_, T>> {
+            match self.tag.try_acquire(true) {
+                Some((_, false)) => Err(TryLockError::WouldBlock),
+                Some((h, true)) => map_try(self.inner.try_lock(), |g| MutexGuard { g, _r: Release { held: Some(h), write: true } }),
+                None => map_try(self.inner.try_lock(), |g| MutexGuard { g, _r: Release { held: None, write: true } }),
+            }
+        }
+        pub fn get_mut(&mut self) -> LockResult<&mut T> {
+            self.inner.get_mut()
+        }
+        pub fn is_poisoned(&self) -> bool {
+            self.inner.is_poisoned()
+        }
+    }
+    impl<T: Default> Default for Mutex<T> {
+        fn default() -> Self {
+            Mutex::new(T::default())
+        }
+    }
+    impl<T: ?Sized + std::fmt::Debug> std::fmt::Debug for Mutex<T> {
+        fn fmt(&self, f: &mut std::fmt::Formatter<'_>) -> std::fmt::Result {
+            self.inner.fmt(f)
+        }
+    }
+    impl<T: ?Sized> std::ops::Deref for MutexGuard<'_, T> {
+        type Target = T;
+        fn deref(&self) -> &T {
+            &self.g
+        }
+    }
+    impl<T: ?Sized> std::ops::DerefMut for MutexGuard<'_, T> {
+        fn deref_mut(&mut self) -> &mut T {
+            &mut self.g
+        }
+    }
 }
